@@ -202,15 +202,27 @@ def mechanism(builder, node, v, opts):
         if k == "opt" and node[1][0] in ("or", "xor"):
             arms = [("leaf", "NoneType")] + list(node[1][1])
         for a in arms:
-            # a lax arm whose own output is not a fixed point is the root cause, not the union
-            if a[0] == "con" and a[3] and isinstance(v, TS.ORIGINS[a[1]]) and not _stable(builder, a, v, opts):
-                m = mechanism(builder, a, v, opts)
+            # an arm whose own (nested) output is not a fixed point is the root cause, not the union
+            try:
+                belongs = a[0] in ("con", "gen") and isinstance(v, TS.ORIGINS[a[1]] if a[0] == "con" else TS.GEN_ORIGIN[a[1]])
+            except Exception:
+                belongs = False
+            if belongs and not _stable(builder, a, v, opts):
+                n2, v2 = locate(builder, a, v, opts)
+                m = mechanism(builder, n2, v2, opts) if n2 is not node else ""
                 if m.startswith("lax-"):
                     return m
         acc = 0
+        ndl, ncast = bool(opts.get("no_data_loss")), bool(opts.get("no_explicit_cast"))
+        stages = [dict(opts)]
+        if k != "xor":  # a union resolves in stages: an arm may take the output in the strict / no-loss stage
+            if not (ndl and ncast):
+                stages.append(dict(opts, no_data_loss=True, no_explicit_cast=True))
+            if not ndl and not ncast:
+                stages.append(dict(opts, no_data_loss=True))
         for a in arms:
             try:
-                if _parse_with(builder, a, v, opts).ok:
+                if any(_parse_with(builder, a, v, st).ok for st in stages):
                     acc += 1
             except Exception:
                 pass
